@@ -1601,6 +1601,8 @@ impl Node {
             self
         });
         rc.created_in.add_node(rc.clone());
+        #[cfg(cormacrelf_incremental_rs_verif)]
+        rc.verif_register();
         rc
     }
 
@@ -1650,6 +1652,18 @@ impl Node {
 
     pub fn create_rc<R: Value>(state: Weak<State>, created_in: Scope, kind: Kind) -> Rc<Self> {
         Node::create::<R>(state, created_in, kind).into_rc()
+    }
+
+    #[cfg(cormacrelf_incremental_rs_verif)]
+    pub(crate) fn verif_kind(&self) -> &Kind {
+        &self._kind
+    }
+
+    #[cfg(cormacrelf_incremental_rs_verif)]
+    pub(crate) fn verif_register(self: &Rc<Self>) {
+        if let Some(st) = self.weak_state.upgrade() {
+            st.verif.register_node(self);
+        }
     }
 
     fn kind(&self) -> Option<&Kind> {
